@@ -530,7 +530,11 @@ class Evaluator:
             if t.vararg:
                 bound["*"] = tuple(star)
             selfenv = {k: v for k, v in env.items() if k.startswith("self.")}
-            return self.call(t, bound, selfenv, depth + 1)
+            try:
+                return self.call(t, bound, selfenv, depth + 1)
+            finally:
+                if isinstance(fn, ast.Attribute) and isinstance(fn.value, ast.Name) and fn.value.id == "self":
+                    env.update(selfenv)        # the callee ran on the same object
         if isinstance(fn, ast.Attribute) and fn.attr in ("find", "rfind", "replace", "split", "strip", "rstrip", "lstrip", "lower", "upper",
                                                          "count", "index", "isnumeric", "isdigit") \
                 and all(isinstance(a, (str, int)) for a in args) and not kws:
